@@ -103,7 +103,7 @@ func values(r *mc.Run) []V3 {
 		alpha = "012a~+.-:"
 	}
 	ups := gen.AllStrings(gen.Chars(alpha), 2)
-	revs := []string{"", "0", "1", "~", "a"}
+	revs := []string{"", "0", "1", "~", "a", "+1", "1a", "01"}
 	var all []V3
 	for _, e := range []uint{0, 1} {
 		for _, u := range ups {
@@ -123,7 +123,7 @@ func Run(r *mc.Run) {
 	r.Assume = []string{"no reference comparator: the laws are checked on the implementation's own answers", "values outside the enumerated set (longer strings, other bytes) are not explored"}
 	vals := values(r)
 	n := len(vals)
-	r.Scenario("order-laws-all-triples", map[string]interface{}{"values": n, "epochs": "0 1", "upstream": "|s|<=2 over 012a~+.- (thorough adds :)", "revisions": "'' 0 1 ~ a"},
+	r.Scenario("order-laws-all-triples", map[string]interface{}{"values": n, "epochs": "0 1", "upstream": "|s|<=2 over 012a~+.- (thorough adds :)", "revisions": "'' 0 1 ~ a +1 1a 01"},
 		n, func(i int, st *mc.Stats) bool {
 			a := vals[i]
 			for j := 0; j < n; j++ {
